@@ -220,6 +220,17 @@ pub fn run(ctx: &Ctx, rep: &mut Report) {
         break;
       }
       judge(kind, &calls, &protected, &lab, rep, &replay, &describe);
+      if rep.want_sample() {
+        rep.sample(json!({
+          "command": format!("ord wallet {}", args.join(" ")),
+          "exit": r.status,
+          "protected_outputs": protected.iter().map(|o| o.to_string()).collect::<Vec<_>>(),
+          "rpc_history": calls.iter().filter(|c| matches!(c.method.as_str(), "lockunspent" | "fundrawtransaction" | "sendrawtransaction" | "signrawtransactionwithwallet" | "walletprocesspsbt")).map(|c| match c.method.as_str() {
+            "lockunspent" => format!("lockunspent({}, {} outputs)", c.params[0], c.params[1].as_array().map(|a| a.len()).unwrap_or(0)),
+            m => m.to_string(),
+          }).collect::<Vec<_>>(),
+        }));
+      }
       if r.ok() {
         rep.count(&format!("command_ok_{kind}"));
       } else {
